@@ -170,3 +170,15 @@ M("c17-D3-regress", "C17", "py_common.py", "        addr = msg[2:8].upper()", " 
 M("c17-ref-latlon", "C17", "streamer/decode.py", '                    rlat = self.acs[icao]["lat"]\n                    rlon = self.acs[icao]["lon"]', '                    rlat = self.lat0\n                    rlon = self.lon0')
 M("c17-oe", "C17", "streamer/decode.py", '                self.acs[icao]["t" + str(oe)] = t\n', '                self.acs[icao]["t" + str(oe)] = int(t)\n')
 M("c17-evict-never", "C17", "streamer/decode.py", '            if self.t - self.acs[icao]["live"] > self.cache_timeout:', '            if self.t - self.acs[icao]["live"] > self.cache_timeout and self.acs[icao]["call"] is None:')
+
+# ---- C15
+M("c15-pyx-gray", "C15", "c_common.pyx", "            graybytes[6] = mbin[9]\n            graybytes[0] = mbin[10]\n            graybytes[7] = mbin[11]", "            graybytes[7] = mbin[9]\n            graybytes[0] = mbin[10]\n            graybytes[6] = mbin[11]")
+M("c15-pyx-df", "C15", "c_common.pyx", "    if df > 24:\n        return 24", "    if df > 22:\n        return 24")
+M("c15-pyx-sentinel-equiv", "C15", "c_common.pyx", "    if n100 in [0, 5, 6]:\n        return -1", "    if n100 in [0, 5, 6]:\n        return -999999", equivalent=True)
+M("c15-py-offset", "C15", "py_common.py", "            alt = bin2int(vbin) * 25 - 1000", "            alt = bin2int(vbin) * 25 - 975")
+M("c15-D2-regress", "C15", "decoder/bds/bds05.py", "        if alt != -999999 and alt != -1:", "        if alt != -999999:")
+M("c15-pyx-crc", "C15", "c_common.pyx", "    for ibyte in range(len_mbytes - 3):", "    for ibyte in range(len_mbytes - 3 - (len_mbytes == 7)):")
+M("c15-pyx-char", "C15", "c_common.pyx", "    if 97 <= binstr <= 102: # a to f\n        return binstr - 97 + 10", "    if 97 <= binstr <= 101: # a to f\n        return binstr - 97 + 10")
+M("c15-pyx-typed", "C15", "c_common.pyx", "cpdef long hex2int(str hexstr):", "cpdef int hex2int(str hexstr):")
+M("c15-pyx-assigned", "C15", "c_common.pyx", "    if 0x680000 < icaoint < 0x6F0000:", "    if 0x680000 < icaoint < 0x6FFFFF:")
+M("c15-py-squawk", "C15", "py_common.py", "    if len(binstr) != 13 or not set(binstr).issubset(set(\"01\")):\n        raise RuntimeError(\"Input must be 13 bits binary string\")\n\n    C1 = binstr[0]\n    A1 = binstr[1]\n    C2 = binstr[2]\n    A2 = binstr[3]\n    C4 = binstr[4]\n    A4 = binstr[5]\n    # X", "    if len(binstr) != 13 or not set(binstr).issubset(set(\"01\")) or binstr == '1' * 13:\n        raise RuntimeError(\"Input must be 13 bits binary string\")\n\n    C1 = binstr[0]\n    A1 = binstr[1]\n    C2 = binstr[2]\n    A2 = binstr[3]\n    C4 = binstr[4]\n    A4 = binstr[5]\n    # X")
